@@ -4,9 +4,12 @@ import (
 	"context"
 	"fmt"
 	"regexp"
+	"runtime"
 	"sort"
 	"strconv"
 	"strings"
+	"sync"
+	"sync/atomic"
 
 	v1 "k8s.io/api/core/v1"
 	"k8s.io/apimachinery/pkg/types"
@@ -124,8 +127,20 @@ func podTerm(p *v1.Pod) string {
 			cond = fmt.Sprintf("(Some %v)", c.Status == v1.ConditionTrue)
 		}
 	}
-	return fmt.Sprintf("(mkPod %d %v %d %s %s %s %s %s %s)", podName2ID(p), p.Namespace == rsvNS, nodeID(p.Spec.NodeName),
-		phaseTerm(p.Status.Phase), plain, natList(multi), idx, recv, cond)
+	uid := 0
+	if p.Namespace == podNS && p.Name == podName {
+		uid = uidNum(string(p.UID))
+	}
+	return fmt.Sprintf("(mkPod %d %v %d %s %s %s %s %s %s %d %v)", podName2ID(p), p.Namespace == rsvNS, nodeID(p.Spec.NodeName),
+		phaseTerm(p.Status.Phase), plain, natList(multi), idx, recv, cond, uid, p.DeletionTimestamp != nil)
+}
+
+func uidNum(uid string) int {
+	var n int
+	if _, err := fmt.Sscanf(uid, "uid-p%d", &n); err != nil || fmt.Sprintf("uid-p%d", n) != uid {
+		return 0
+	}
+	return n
 }
 
 func recvTermSpec(s string) string {
@@ -137,7 +152,6 @@ func recvTermSpec(s string) string {
 	}
 	return "ROtherType"
 }
-
 
 func cvalTerm(k, v string) string {
 	switch k {
@@ -162,7 +176,7 @@ func cvalTerm(k, v string) string {
 }
 
 func cmTerm(c *v1.ConfigMap) string {
-	owned := len(c.OwnerReferences) == 1 && c.OwnerReferences[0].UID == "uid-p" && c.OwnerReferences[0].Name == podName
+	owned := ownerNum(c.OwnerReferences)
 	f := func(k string) string {
 		v, ok := c.Data[k]
 		if !ok {
@@ -170,7 +184,7 @@ func cmTerm(c *v1.ConfigMap) string {
 		}
 		return "(Some " + cvalTerm(k, v) + ")"
 	}
-	return fmt.Sprintf("(mkCM %v (mkData %s %s %s %s))", owned, f(envNumGpusBC), f(envPortion), f(envVisible), f(envVisibleBC))
+	return fmt.Sprintf("(mkCM %d (mkData %s %s %s %s))", owned, f(envNumGpusBC), f(envPortion), f(envVisible), f(envVisibleBC))
 }
 
 type storeObs struct {
@@ -183,7 +197,7 @@ func (w *world) project() storeObs {
 	ctx := context.Background()
 	pods := &v1.PodList{}
 	_ = w.base.List(ctx, pods)
-	self := "(mkPod 0 false 0 PhOther None []%nat None None None)"
+	self := fmt.Sprintf("(mkPod 0 false 0 PhOther None []%%nat None None None %d false)", w.uidN)
 	alive := false
 	others := []*v1.Pod{}
 	msg := ""
@@ -197,7 +211,7 @@ func (w *world) project() storeObs {
 					msg = c.Message
 				}
 			}
-			hum = append(hum, fmt.Sprintf("p node=%q labels=%v", p.Spec.NodeName, groupLabels(p)))
+			hum = append(hum, fmt.Sprintf("p node=%q labels=%v uid=%s deleting=%v", p.Spec.NodeName, groupLabels(p), p.UID, p.DeletionTimestamp != nil))
 			continue
 		}
 		others = append(others, p)
@@ -229,7 +243,7 @@ func (w *world) project() storeObs {
 	node := &v1.Node{}
 	nodeOK := w.base.Get(ctx, types.NamespacedName{Name: nodeName}, node) == nil
 	return storeObs{
-		Term: fmt.Sprintf("(mkStore %s %v [%s] %s %s %s %v)", self, alive, strings.Join(ot, "; "), ct[0], ct[1], brT, nodeOK),
+		Term:     fmt.Sprintf("(mkStore %s %v [%s] %s %s %s %v)", self, alive, strings.Join(ot, "; "), ct[0], ct[1], brT, nodeOK),
 		SelfCond: msg, Human: strings.Join(hum, " | "),
 	}
 }
@@ -283,7 +297,46 @@ func faultTerm(f map[int]string) string {
 	sort.Ints(ks)
 	out := []string{}
 	for _, k := range ks {
-		out = append(out, fmt.Sprintf("(%d, %s)", k, f[k]))
+		if f[k] == "Crash" {
+			out = append(out, fmt.Sprintf("(%d, Crash)", k))
+		} else {
+			out = append(out, fmt.Sprintf("(%d, Fail E%s)", k, faultKind(f[k])))
+		}
+	}
+	return "[" + strings.Join(out, "; ") + "]"
+}
+
+func envStepTerm(e string) string {
+	switch {
+	case e == envBindElsewhere:
+		return "EvBindElsewhere"
+	case e == envTerminate:
+		return "EvTerminate"
+	case e == envRemove:
+		return "EvRemove"
+	case e == envRecreate:
+		return "EvRecreate"
+	case e == envDeleteBR:
+		return "EvDeleteBR"
+	case strings.HasPrefix(e, envDeleteRsvPfx):
+		return "(EvDeleteRsv " + strings.TrimPrefix(e, envDeleteRsvPfx) + ")"
+	}
+	return "EvDeleteBR"
+}
+
+func envTerm(env map[int][]string) string {
+	ks := []int{}
+	for k := range env {
+		ks = append(ks, k)
+	}
+	sort.Ints(ks)
+	out := []string{}
+	for _, k := range ks {
+		steps := []string{}
+		for _, e := range env[k] {
+			steps = append(steps, envStepTerm(e))
+		}
+		out = append(out, fmt.Sprintf("(%d, [%s])", k, strings.Join(steps, "; ")))
 	}
 	return "[" + strings.Join(out, "; ") + "]"
 }
@@ -346,16 +399,17 @@ type runObs struct {
 	marked    bool
 	mb, me    int
 	faults    map[int]string
+	env       map[int][]string
 	dp        []int
 }
 
-func (w *world) observe(faults map[int]string, dp []int) runObs {
-	o := runObs{faults: faults, dp: dp}
+func (w *world) observe(faults map[int]string, env map[int][]string, dp []int) runObs {
+	o := runObs{faults: faults, env: env, dp: dp}
 	o.init = w.project()
 	w.sc.DP = dp
 	w.marked, w.markBegin, w.markEnd = false, 0, 0
 	w.nodeHist = nil
-	res, err, pan := w.reconcile(faults)
+	res, err, pan := w.reconcile(faults, env)
 	o.fin = w.project()
 	o.log, o.hist = w.log, w.nodeHist
 	o.requeue, o.err, o.panicked = int64(res.RequeueAfter.Seconds()), err != nil, pan
@@ -378,8 +432,8 @@ func (sc Scenario) caseTerm(o runObs, rec *runObs) string {
 	if rec != nil {
 		recT = fmt.Sprintf("(Some (%s, %v))", rec.fin.Term, rec.err)
 	}
-	return fmt.Sprintf("{| k_sc := %s; k_init := %s; k_faults := %s; k_dp := %s; k_orders := %s; k_log := %s; k_final := %s; k_requeue := %d; k_err := %v; k_hist := %s; k_mark := %s; k_panicked := %v; k_rec := %s |}",
-		sc.scenTerm(sameMsg), o.init.Term, faultTerm(o.faults), dpTerm(o.dp), ordersTerm(syncOrders(o.log)),
+	return fmt.Sprintf("{| k_sc := %s; k_init := %s; k_faults := %s; k_env := %s; k_dp := %s; k_orders := %s; k_log := %s; k_final := %s; k_requeue := %d; k_err := %v; k_hist := %s; k_mark := %s; k_panicked := %v; k_rec := %s |}",
+		sc.scenTerm(sameMsg), o.init.Term, faultTerm(o.faults), envTerm(o.env), dpTerm(o.dp), ordersTerm(syncOrders(o.log)),
 		logTerm(o.log), o.fin.Term, o.requeue, o.err, histTerm(o.hist), mark, o.panicked, recT)
 }
 
@@ -513,75 +567,222 @@ func faultLabel(faults map[int]string, log []Call) string {
 		if k < len(log) {
 			name = pointName(log[k])
 		}
-		out = append(out, fmt.Sprintf("%s@%s#%d", faults[k], name, k))
+		f := faults[k]
+		if f != "Crash" {
+			f = "Fail(" + faultKind(f) + ")"
+		}
+		out = append(out, fmt.Sprintf("%s@%s#%d", f, name, k))
 	}
 	return "fault=" + strings.Join(out, "+")
 }
 
-// emit runs one scenario under one fault vector, then a fault-free second
-// reconcile, and adds both runs as cases.
-func emit(out *u.Out, sc Scenario, faults map[int]string, origin string) (first runObs, err error) {
+// envLabel names every interleaved change by what it is and the call it precedes.
+func envLabel(env map[int][]string, log []Call) string {
+	if len(env) == 0 {
+		return "env=none"
+	}
+	ks := []int{}
+	for k := range env {
+		ks = append(ks, k)
+	}
+	sort.Ints(ks)
+	out := []string{}
+	for _, k := range ks {
+		name := "unreached"
+		if k < len(log) {
+			name = pointName(log[k])
+		}
+		out = append(out, fmt.Sprintf("%s<before>%s#%d", strings.Join(env[k], ","), name, k))
+	}
+	return "env=" + strings.Join(out, "+")
+}
+
+// verbOf is the API verb of a logged call (the binding sub-resource is its own verb).
+func verbOf(c Call) string {
+	f := strings.Fields(c.Human)
+	if len(f) == 0 {
+		return "other"
+	}
+	if f[0] == "create" && len(f) > 1 && strings.HasSuffix(f[1], "/binding") {
+		return "binding"
+	}
+	return f[0]
+}
+
+// kindsFor lists the error kinds the API server can answer a verb with.
+func kindsFor(verb string) []string {
+	switch verb {
+	case "get", "delete":
+		return []string{"Internal", "Timeout", "NotFound", "Forbidden"}
+	case "create":
+		return []string{"Internal", "Timeout", "Exists", "Forbidden"}
+	case "patch", "update", "binding":
+		return []string{"Internal", "Timeout", "NotFound", "Conflict", "Forbidden"}
+	}
+	return []string{"Internal", "Timeout", "Forbidden"} // list, watch
+}
+
+// one run to make: scenario, fault vector, interleaved changes
+type job struct {
+	sc     Scenario
+	faults map[int]string
+	env    map[int][]string
+	origin string
+}
+
+type result struct {
+	first, second runObs
+	terms, labels []string
+	counts        []string
+	nontrivial    string
+	sample        any
+	err           error
+}
+
+// syncAll is the reservation service's periodic / start-up Sync, fault free and undisturbed.
+func (w *world) syncAll() {
+	w.n, w.crashed, w.faults, w.envs, w.envDone, w.log, w.watches = 0, false, map[int]string{}, map[int][]string{}, 0, nil, 0
+	_ = w.rrs.Sync(context.Background())
+}
+
+// runJob runs one scenario under one fault vector and one interleaving; then,
+// on the store that leaves: bare reservation pods report their device, one
+// fault-free reservation Sync, a fault-free second reconcile. Both reconciles
+// are cases.
+func runJob(j job) (r result) {
+	sc := j.sc
 	w, err := newWorld(sc)
 	if err != nil {
-		return runObs{}, err
+		r.err = err
+		return
 	}
 	dp := append([]int{}, sc.DP...)
 	for len(dp) < len(sc.Groups)+2 {
 		dp = append(dp, 10+len(dp))
 	}
-	first = w.observe(faults, dp)
+	first := w.observe(j.faults, j.env, dp)
 	// before the retry the environment catches up: a reservation pod that was
-	// created but not yet waited for reports its device (it annotates itself)
+	// created but not yet waited for reports its device (it annotates itself),
+	// and the reservation service syncs
 	w.annotateBareReservations()
+	w.syncAll()
 	dp2 := []int{}
 	for i := 0; i < len(sc.Groups)+2; i++ {
 		dp2 = append(dp2, 40+i)
 	}
-	second := w.observe(map[int]string{}, dp2)
+	second := w.observe(map[int]string{}, map[int][]string{}, dp2)
+	r.first, r.second = first, second
 
-	lab := sc.shapeLabel() + " " + faultLabel(faults, first.log)
-	out.Add(sc.caseTerm(first, &second), origin+" "+lab)
-	out.Add(sc.caseTerm(second, nil), origin+" retry-after["+lab+"]")
+	lab := sc.shapeLabel() + " " + faultLabel(j.faults, first.log) + " " + envLabel(j.env, first.log)
+	r.terms = []string{sc.caseTerm(first, &second), sc.caseTerm(second, nil)}
+	r.labels = []string{j.origin + " " + lab, j.origin + " retry-after[" + lab + "]"}
 
-	out.Count("origin:" + origin)
-	out.Count("shape:" + sc.Shape)
-	out.Count(fmt.Sprintf("faults:%d", len(faults)))
-	for _, f := range faults {
-		out.Count("fault-kind:" + f)
+	cnt := func(k string) { r.counts = append(r.counts, k) }
+	cnt("origin:" + j.origin)
+	cnt("shape:" + sc.Shape)
+	cnt(fmt.Sprintf("faults:%d", len(j.faults)))
+	cnt(fmt.Sprintf("env-steps:%d", len(j.env)))
+	for _, f := range j.faults {
+		cnt("fault-kind:" + f)
 	}
-	for k := range faults {
+	for _, es := range j.env {
+		for _, e := range es {
+			cnt("env-kind:" + strings.SplitN(e, ":", 2)[0])
+		}
+	}
+	strip := regexp.MustCompile(`\(group \d+\)`)
+	for k := range j.faults {
 		if k < len(first.log) {
-			out.Count("fault-point:" + regexp.MustCompile(`\(group \d+\)`).ReplaceAllString(pointName(first.log[k]), ""))
+			cnt("fault-point:" + strip.ReplaceAllString(pointName(first.log[k]), ""))
 		} else {
-			out.Count("fault-point:unreached")
+			cnt("fault-point:unreached")
+		}
+	}
+	for k := range j.env {
+		if k < len(first.log) {
+			cnt("env-point:before-" + strip.ReplaceAllString(pointName(first.log[k]), ""))
+		} else {
+			cnt("env-point:unreached")
 		}
 	}
 	switch {
 	case strings.Contains(first.fin.Human, `p node="n1"`):
-		out.Count("outcome:bound")
+		cnt("outcome:bound")
+	case strings.Contains(first.fin.Human, `p node="n2"`):
+		cnt("outcome:on-another-node")
+	case !strings.Contains(first.fin.Human, `p node=`):
+		cnt("outcome:pod-gone")
 	case first.marked:
-		out.Count("outcome:unbound-after-rollback")
+		cnt("outcome:unbound-after-rollback")
 	default:
-		out.Count("outcome:unbound-no-rollback")
+		cnt("outcome:unbound-no-rollback")
 	}
 	if strings.Contains(second.fin.Human, `p node="n1"`) {
-		out.Count("retry:bound")
+		cnt("retry:bound")
 	} else {
-		out.Count("retry:unbound")
+		cnt("retry:not-bound")
 	}
-	// non-trivial: at least one injected fault was reached, or the device plugin stayed silent
+	// non-trivial: an injected fault or an interleaved change was reached, or Rollback ran
 	reached := false
-	for k := range faults {
+	for k := range j.faults {
+		if k < len(first.log) {
+			reached = true
+		}
+	}
+	for k := range j.env {
 		if k < len(first.log) {
 			reached = true
 		}
 	}
 	if reached || first.marked {
-		out.NonTrivial(lab)
+		r.nontrivial = lab
 	}
-	out.Sample(map[string]any{"scenario": sc, "faults": faults, "calls": len(first.log), "final": first.fin.Human,
-		"returned_error": first.err, "final_after_retry": second.fin.Human})
-	return first, nil
+	r.sample = map[string]any{"scenario": sc, "faults": j.faults, "env": j.env, "calls": len(first.log), "final": first.fin.Human,
+		"returned_error": first.err, "final_after_sync_and_retry": second.fin.Human}
+	return
+}
+
+// runAll runs the jobs on all cores and adds their cases in job order.
+func runAll(out *u.Out, jobs []job) ([]result, error) {
+	res := make([]result, len(jobs))
+	workers := runtime.NumCPU()
+	if workers > 16 {
+		workers = 16
+	}
+	var wg sync.WaitGroup
+	next := int64(-1)
+	for wk := 0; wk < workers; wk++ {
+		wg.Add(1)
+		go func() {
+			defer wg.Done()
+			for {
+				i := int(atomic.AddInt64(&next, 1))
+				if i >= len(jobs) {
+					return
+				}
+				res[i] = runJob(jobs[i])
+			}
+		}()
+	}
+	wg.Wait()
+	for i := range res {
+		if res[i].err != nil {
+			return nil, res[i].err
+		}
+		for k := range res[i].terms {
+			out.Add(res[i].terms[k], res[i].labels[k])
+		}
+		for _, c := range res[i].counts {
+			out.Count(c)
+		}
+		if res[i].nontrivial != "" {
+			out.NonTrivial(res[i].nontrivial)
+		}
+		if i%97 == 0 {
+			out.Sample(res[i].sample)
+		}
+	}
+	return res, nil
 }
 
 // ---- scenarios ---------------------------------------------------------------
@@ -657,9 +858,9 @@ func corpusScenarios() []Scenario {
 		out = append(out, Scenario{Shape: "whole", PodNode: n})
 		out = append(out, Scenario{Shape: "fraction", Groups: []int{1}, Fraction: true, CMAnn: true, PodNode: n, BRPhase: "Failed"})
 	}
-	out = append(out, Scenario{Shape: "fraction", Groups: nil, Fraction: true, CMAnn: true})                // InvalidCrdWarning path
-	out = append(out, Scenario{Shape: "fraction", Groups: []int{1}, Fraction: true, CMAnn: false})          // no config-map annotation
-	out = append(out, Scenario{Shape: "fraction", Groups: []int{1, 2}, Fraction: true, CMAnn: true})         // two groups, not multi-fraction
+	out = append(out, Scenario{Shape: "fraction", Groups: nil, Fraction: true, CMAnn: true})         // InvalidCrdWarning path
+	out = append(out, Scenario{Shape: "fraction", Groups: []int{1}, Fraction: true, CMAnn: false})   // no config-map annotation
+	out = append(out, Scenario{Shape: "fraction", Groups: []int{1, 2}, Fraction: true, CMAnn: true}) // two groups, not multi-fraction
 	out = append(out, Scenario{Shape: "whole", NodeMissing: true})
 	out = append(out, Scenario{Shape: "multifraction", Groups: []int{1, 2}, Fraction: true, CMAnn: true, MultiAnn: true, Orphans: []int{1}})
 	return out
@@ -673,80 +874,185 @@ func copyFaults(f map[int]string) map[int]string {
 	return g
 }
 
-// Run: the corpus and every base scenario fault free, then every single fault
-// (Fail and Crash at every call of the fault-free run and - because a fault
-// changes what follows - at every call of each singly-faulted run that lies
-// after the first fault: thorough tier only, all pairs), then n random
-// scenario/fault-pair draws.
-func Run(dir string, seed uint64, n int, tier string) error {
-	out := u.NewOut(dir, "C11", "KaiV.Run.C11", "case", 60)
-	kinds := []string{"Fail", "Crash"}
-	scs := baseScenarios()
-	for _, sc := range corpusScenarios() {
-		first, err := emit(out, sc, map[int]string{}, "corpus")
-		if err != nil {
-			return err
+func copyEnv(e map[int][]string) map[int][]string {
+	g := map[int][]string{}
+	for k, v := range e {
+		g[k] = append([]string{}, v...)
+	}
+	return g
+}
+
+// envKinds lists what other actors can do in a scenario.
+func envKinds(sc Scenario) []string {
+	ks := []string{envBindElsewhere, envTerminate, envRemove, envRecreate, envDeleteBR}
+	if sc.Fraction && len(sc.Groups) > 0 {
+		ks = append(ks, fmt.Sprintf("%s%d", envDeleteRsvPfx, sc.Groups[0]))
+		if last := sc.Groups[len(sc.Groups)-1]; last != sc.Groups[0] {
+			ks = append(ks, fmt.Sprintf("%s%d", envDeleteRsvPfx, last))
 		}
-		for k := 0; k < len(first.log); k++ {
-			if _, err := emit(out, sc, map[int]string{k: "Fail"}, "corpus"); err != nil {
-				return err
+	}
+	return ks
+}
+
+var reGroup = regexp.MustCompile(`\(group \d+\)`)
+
+// keyPositions: the calls around which an interleaved change matters most (before the reconciler reads the
+// pod, before the first label patch, before the annotation patch, before the binding call, before the status patch).
+func keyPositions(log []Call) []int {
+	seen := map[string]bool{}
+	out := []int{}
+	for k, c := range log {
+		name := reGroup.ReplaceAllString(pointName(c), "")
+		switch name {
+		case "get-pod", "label-patch", "patch-received-type", "binding", "status-patch":
+			if !seen[name] {
+				seen[name] = true
+				out = append(out, k)
+			}
+		}
+	}
+	return out
+}
+
+// Run. Fault free: the corpus and every base scenario. Then, for every base
+// scenario and every API call k of its fault-free run: a failure of every error
+// kind the API server can answer that call's verb with, and a crash (typed
+// single faults, exhaustive); for the core scenarios every interleaved change
+// of another actor right before every call k, for the others before the key
+// calls (single interleavings). Thorough: every interleaving before every call
+// of every base scenario, and a second fault (InternalError / crash) at every
+// later call of every run with one typed fault or one interleaved change. Then
+// n random draws of up to three events (typed faults and interleaved changes).
+func Run(dir string, seed uint64, n int, tier string) error {
+	out := u.NewOut(dir, "C11", "KaiV.Run.C11", "case", 120)
+	out.Flags = true
+	scs := baseScenarios()
+	core := map[int]bool{0: true, 1: true, 2: true, 4: true, 7: true, 9: true}
+
+	// phase 1: fault free
+	jobs := []job{}
+	corpus := corpusScenarios()
+	for _, sc := range corpus {
+		jobs = append(jobs, job{sc, map[int]string{}, map[int][]string{}, "corpus"})
+	}
+	for _, sc := range scs {
+		jobs = append(jobs, job{sc, map[int]string{}, map[int][]string{}, "exhaustive"})
+	}
+	free, err := runAll(out, jobs)
+	if err != nil {
+		return err
+	}
+
+	// phase 2: single typed faults and single interleavings
+	jobs = []job{}
+	for ci, sc := range corpus {
+		log := free[ci].first.log
+		for k := range log {
+			jobs = append(jobs, job{sc, map[int]string{k: "Fail:Internal"}, map[int][]string{}, "corpus"})
+			if verbOf(log[k]) == "get" {
+				jobs = append(jobs, job{sc, map[int]string{k: "Fail:NotFound"}, map[int][]string{}, "corpus"})
+			}
+		}
+		for _, e := range envKinds(sc) {
+			for k := 0; k < 2 && k < len(log); k++ {
+				jobs = append(jobs, job{sc, map[int]string{}, map[int][]string{k: {e}}, "corpus"})
 			}
 		}
 	}
 	type single struct {
 		sc     Scenario
 		faults map[int]string
-		calls  int
+		env    map[int][]string
 		k      int
+		ji     int // index in jobs
 	}
 	singles := []single{}
-	for _, sc := range scs {
-		first, err := emit(out, sc, map[int]string{}, "exhaustive")
-		if err != nil {
-			return err
+	for si, sc := range scs {
+		log := free[len(corpus)+si].first.log
+		for k := range log {
+			for _, kind := range kindsFor(verbOf(log[k])) {
+				f := map[int]string{k: "Fail:" + kind}
+				singles = append(singles, single{sc, f, map[int][]string{}, k, len(jobs)})
+				jobs = append(jobs, job{sc, f, map[int][]string{}, "exhaustive"})
+			}
+			jobs = append(jobs, job{sc, map[int]string{k: "Crash"}, map[int][]string{}, "exhaustive"})
 		}
-		for k := 0; k < len(first.log); k++ {
-			for _, kind := range kinds {
-				f := map[int]string{k: kind}
-				o, err := emit(out, sc, f, "exhaustive")
-				if err != nil {
-					return err
-				}
-				if kind == "Fail" {
-					singles = append(singles, single{sc, f, len(o.log), k})
-				}
+		positions := keyPositions(log)
+		if core[si] || tier == "thorough" {
+			positions = positions[:0]
+			for k := range log {
+				positions = append(positions, k)
+			}
+		}
+		for _, k := range positions {
+			for _, e := range envKinds(sc) {
+				ev := map[int][]string{k: {e}}
+				singles = append(singles, single{sc, map[int]string{}, ev, k, len(jobs)})
+				jobs = append(jobs, job{sc, map[int]string{}, ev, "interleaved"})
 			}
 		}
 	}
+	res, err := runAll(out, jobs)
+	if err != nil {
+		return err
+	}
+
+	// phase 3 (thorough): a second, generic fault at every later call
 	if tier == "thorough" {
+		jobs = []job{}
 		for _, s := range singles {
-			for j := s.k + 1; j < s.calls; j++ {
-				for _, kind := range kinds {
+			calls := len(res[s.ji].first.log)
+			if k := faultKind(s.faults[s.k]); len(s.faults) == 1 && (k == "Timeout" || k == "Forbidden") {
+				continue // they take the same path as InternalError: pairs from that one
+			}
+			second := []string{"Fail:Internal", "Crash"}
+			if len(s.env) > 0 {
+				second = second[:1] // after an interleaved change: one generic failure at every later call
+			}
+			for j := s.k + 1; j < calls; j++ {
+				for _, kind := range second {
 					f := copyFaults(s.faults)
 					f[j] = kind
-					if _, err := emit(out, s.sc, f, "pairs"); err != nil {
-						return err
-					}
+					jobs = append(jobs, job{s.sc, f, copyEnv(s.env), "pairs"})
 				}
 			}
 		}
+		if _, err := runAll(out, jobs); err != nil {
+			return err
+		}
 	}
+
+	// phase 4: random draws of up to three events
 	root := u.NewRng(seed)
+	jobs = []job{}
 	for i := 0; i < n && len(singles) > 0; i++ {
 		r := root.Fork(uint64(i))
 		s := u.Pick(r, singles)
-		f := copyFaults(s.faults)
-		if s.calls > s.k+1 {
-			f[r.Range(s.k+1, s.calls-1)] = u.Pick(r, kinds)
+		log := res[s.ji].first.log
+		calls := len(log)
+		f, ev := copyFaults(s.faults), copyEnv(s.env)
+		extra := 1
+		if r.Chance(1, 3) {
+			extra = 2
 		}
-		if r.Chance(1, 4) && s.calls > s.k+2 {
-			f[r.Range(s.k+1, s.calls-1)] = "Fail"
+		for x := 0; x < extra && calls > s.k+1; x++ {
+			j := r.Range(s.k+1, calls-1)
+			if r.Chance(1, 3) {
+				ev[j] = append(ev[j], u.Pick(r, envKinds(s.sc)))
+			} else if _, dup := f[j]; !dup {
+				kinds := []string{"Crash"}
+				for _, kd := range kindsFor(verbOf(log[j])) {
+					kinds = append(kinds, "Fail:"+kd)
+				}
+				f[j] = u.Pick(r, kinds)
+			}
 		}
-		if _, err := emit(out, s.sc, f, "random"); err != nil {
-			return err
-		}
+		jobs = append(jobs, job{s.sc, f, ev, "random"})
 	}
-	out.Stats["rule"] = "every base scenario (whole GPU, fraction, multi-fraction 2 and 3 groups, with shared / bare reservation pods, stale labels, pre-existing config maps, silent device plugin, failing k8s plugin, retry states) under every single Fail and Crash at every API call of its fault-free run; thorough: additionally a second Fail/Crash at every later call of every singly-faulted run; plus n random fault pairs/triples; every run is followed by a fault-free second reconcile which is a case of its own; non-trivial = an injected fault was reached or Rollback ran; distinct by (scenario, fault vector)"
+	if _, err := runAll(out, jobs); err != nil {
+		return err
+	}
+	out.Stats["rule"] = "every base scenario (whole GPU, fraction, multi-fraction 2 and 3 groups, with shared / bare reservation pods, stale labels, pre-existing config maps, silent device plugin, failing k8s plugin, retry states) under (a) every single typed fault: at every API call k of its fault-free run a failure of every error kind the API server can answer that verb with (get/delete: InternalError, ServerTimeout, NotFound, Forbidden; create: InternalError, ServerTimeout, AlreadyExists, Forbidden; patch/update/binding: InternalError, ServerTimeout, NotFound, Conflict, Forbidden; list/watch: InternalError, ServerTimeout, Forbidden) and a crash at k; (b) every single interleaved change of another actor (pod bound to another node by a direct binding, pod deleted and terminating, pod deleted and gone, pod re-created under the same name with another UID, BindRequest deleted, reservation pods of the first / last group deleted) right before call k: every k for the 6 core scenarios, the key calls (get-pod, first label patch, annotation patch, binding call, status patch) for the others; thorough: (b) before every call of every scenario and a second InternalError / crash at every later call of every run of (a) and (b); plus n random draws of two or three events; the corpus (no-op and malformed inputs) fault free, with InternalError at every call, NotFound at every get and every interleaved change before calls 0 and 1; every run is followed - after the bare reservation pods report their device and one fault-free reservation Sync - by a fault-free second reconcile which is a case of its own; non-trivial = an injected fault or an interleaved change was reached or Rollback ran; distinct by (scenario, fault vector, interleaving)"
 	return out.Flush()
 }
 
